@@ -930,6 +930,8 @@ var engineCorpus = []corpusCase{
 		fn: map[string][]eFres{"aa": []eFres{{Content: "t", Set: []uint32{6, 9}}}}, cfg: eCfg{FlagCount: 2}, inputs: []string{"", "1", "0", "1", ""}},
 	{name: "graceful-end", nodes: [][3]string{{"root", "HALT; INCMP foo 1", "root"}, {"foo", "LOAD aa 10; MAP aa; HALT; INCMP end1 1", "foo {{.aa}}"}, {"end1", "LOAD bb 0; HALT", "the end"}, {"_catch", "HALT; INCMP _ *", "catch"}},
 		fn: map[string][]eFres{"aa": []eFres{{Content: "v", Set: []uint32{8}}}, "bb": st1(" bye")}, cfg: eCfg{FlagCount: 2, CacheSize: 100}, inputs: []string{"", "1", "1", "", "1", "1"}},
+	{name: "anon-node", nodes: [][3]string{{"root", "HALT; INCMP _ 0; INCMP end1 1", "root"}, {"", "LOAD aa 0; HALT; INCMP root *", "anon"}, {"end1", "LOAD bb 0; HALT", "the end"}, {"_catch", "HALT; INCMP _ *", "catch"}},
+		fn: map[string][]eFres{"aa": st1("v"), "bb": st1(" bye")}, cfg: eCfg{FlagCount: 1, CacheSize: 100}, inputs: []string{"", "0", "x", "1", "", "0"}},
 	{name: "abnormal-end", nodes: [][3]string{{"root", "HALT; INCMP foo 1", "root"}, {"foo", "LOAD aa 10", "foo"}, {"_catch", "HALT; INCMP _ *", "catch"}},
 		fn: map[string][]eFres{"aa": st1("v")}, cfg: eCfg{FlagCount: 2}, inputs: []string{"", "1", "", "1"}},
 	{name: "browse-past-end", nodes: [][3]string{{"root", "LOAD aa 0; MAP aa; MNEXT nxt 11; MPREV prv 22; HALT; INCMP > 11; INCMP < 22", "r {{.aa}}"}, {"_catch", "MOUT back 0; HALT; INCMP _ 0", "catch"}},
